@@ -344,7 +344,13 @@ package gomavlib
 //@   loop 0 bind i int = rangeindex
 //@   loop 0 invariant -1 <= i && i < len(n.Endpoints) && n.channelProviders != nil
 //@   loop 0 modifies *n.channelProviders
+//@   loop 0 body-ensures [one-provider-per-endpoint-registered] logLen() == 2 && logCallee(0, "gomavlib.EndpointConf.init") && logArgIsPtr(0, 0, n) &&
+//@                    logCallee(1, "(*gomavlib.channelProvider).initialize") && mapHasPtr(n.channelProviders, logArg(1, 0).(*channelProvider)) &&
+//@                    logArg(1, 0).(*channelProvider).node == n && logArg(1, 0).(*channelProvider).endpoint == logRetAny(0, 0).(Endpoint) &&
+//@                    freshPtr(logArg(1, 0).(*channelProvider))
 //@   loop 1 invariant true
+//@   loop 1 body-ensures [every-provider-started] logLen() == 2 && logCallee(0, "range.next") && logCallee(1, "(*gomavlib.channelProvider).start") &&
+//@                    logArgIsPtr(1, 0, logArg(0, 1))
 
 // ---------------------------------------------------------------- node write API (C11, C09, C08): one request per call
 
